@@ -489,7 +489,8 @@ def npu_find_block_configs(npu_op: NpuOperation, accelerator: NpuAccelerator) ->
 
     has_scaling = True
     for tensor in [npu_op.ifm, npu_op.ifm2, npu_op.ofm]:
-        if tensor and tensor.quantization is None:
+        # as in the command stream generator: quantisation without a scale leaves the operation unscaled
+        if tensor and (tensor.quantization is None or tensor.quantization.scale_f32 is None):
             has_scaling = False
             break
 
